@@ -9,7 +9,8 @@ definitely_tag_free(cls, s)
     '>', no '<!--#' followed later by '-->', no '&dtml-' / '&dtml.' whose
     text up to the next ';' consists of name characters only (an entity
     reference is '&dtml-name;' or '&dtml.fmt.fmt-name;': a blank, line end
-    or any other character before the ';' means it is not one).  String
+    or any other character before the ';' means it is not one, and so does
+    an empty name).  String
     class: no '%(' followed later by a ')' after which a format can start
     (a tag is '%(' ... ')' directly followed by digits / point / a
     letter, or by one of '[', ']', '!'; ')' followed by a blank, a sign, '#',
@@ -43,7 +44,16 @@ def possible_entity_at(s, i):
     e = s.find(';', i + 5)
     if e < 0:
         return False
-    return all(c in ENTITY_BODY for c in s[i + 5:e])
+    body = s[i + 5:e]
+    if not all(c in ENTITY_BODY for c in body):
+        return False
+    # a reference names a variable: '&dtml-' NAME ';' or '&dtml.' FORMATS '-'
+    # NAME ';' with a non-empty NAME; '&dtml-;', '&dtml.x;' and '&dtml.x-;'
+    # name nothing and are text
+    if body[0] == '-':
+        return len(body) > 1
+    dash = body.find('-')
+    return 0 <= dash < len(body) - 1
 
 
 import re
